@@ -432,6 +432,21 @@ where
         Ok(())
     }
 
+    /// Retire a worker which a pool shrink marked as draining once it holds no more work.
+    ///
+    /// Returns `true` if the worker was removed from the pool (and stopped).
+    fn retire_if_drained(&mut self, wid: WorkerId) -> bool {
+        if !matches!(self.pool.get(&wid), Some(w) if w.is_draining && !w.is_working()) {
+            return false;
+        }
+        if let Some(w) = self.pool.remove(&wid) {
+            self.worker_by_actor.remove(&w.actor.get_id());
+            tracing::trace!("Stopping worker {}", w.wid);
+            w.actor.stop(None);
+        }
+        true
+    }
+
     fn shrink_pool(&mut self, to_remove: usize) {
         let curr_size = self.pool_size;
         for wid in (curr_size - to_remove)..curr_size {
@@ -1041,9 +1056,13 @@ where
                 if let Some((wid, replacement_id)) = replacement {
                     state.worker_by_actor.remove(&who.get_id());
                     state.worker_by_actor.insert(replacement_id, wid);
-                    state.try_route_next_active_job(Some(wid))?;
-                    if matches!(state.pool.get(&wid), Some(w) if w.is_available()) {
-                        state.router.on_worker_availability_change(wid, true);
+                    // a draining worker whose in-flight job died with it has nothing left to
+                    // finish: retire it now, nothing else would ever do so
+                    if !state.retire_if_drained(wid) {
+                        state.try_route_next_active_job(Some(wid))?;
+                        if matches!(state.pool.get(&wid), Some(w) if w.is_available()) {
+                            state.router.on_worker_availability_change(wid, true);
+                        }
                     }
                 }
             }
@@ -1078,9 +1097,13 @@ where
                 if let Some((wid, replacement_id)) = replacement {
                     state.worker_by_actor.remove(&who.get_id());
                     state.worker_by_actor.insert(replacement_id, wid);
-                    state.try_route_next_active_job(Some(wid))?;
-                    if matches!(state.pool.get(&wid), Some(w) if w.is_available()) {
-                        state.router.on_worker_availability_change(wid, true);
+                    // a draining worker whose in-flight job died with it has nothing left to
+                    // finish: retire it now, nothing else would ever do so
+                    if !state.retire_if_drained(wid) {
+                        state.try_route_next_active_job(Some(wid))?;
+                        if matches!(state.pool.get(&wid), Some(w) if w.is_available()) {
+                            state.router.on_worker_availability_change(wid, true);
+                        }
                     }
                 }
             }
